@@ -129,14 +129,27 @@ def bail_path(fn, bid, cg=None, maxlen=4):
     (retvalue, ret_event, n_nonlog_events); else None."""
     n_other = 0
     cur = bid
+    consts = {}     # single-exit style: `ret = -EPIPE; break; ... return ret;` — a plain local given a constant on this path
     for _ in range(maxlen):
         b = fn.blocks[cur]
         for ev in b.events:
             if ev.kind == "ret":
                 v = _ret_value(ev)
                 if v is None:
+                    se = strip(ev.e)
+                    if se is not None and se["k"] == "var" and se.get("name") in consts:
+                        return (consts[se["name"]], ev, n_other)
                     return None
                 return (v, ev, n_other)
+            if ev.kind in ("assign", "decl") and ev.lhs is not None and ev.rhs is not None and strip(ev.lhs) is not None \
+                    and strip(ev.lhs)["k"] == "var" and strip(ev.lhs).get("vk") in ("local", None):
+                cv = cval(ev.rhs)
+                if cv is None and strip(ev.rhs) is not None and strip(ev.rhs)["k"] == "null":
+                    cv = 0
+                if cv is not None:
+                    consts[strip(ev.lhs)["name"]] = cv
+                    continue
+                consts.pop(strip(ev.lhs)["name"], None)
             if ev.kind == "call":
                 if ev.callee is None:
                     fe = strip(ev.e["fn"])
@@ -151,7 +164,11 @@ def bail_path(fn, bid, cg=None, maxlen=4):
             else:
                 n_other += 1
         nxt = [s for s in b.succs if s is not None]
-        if len(nxt) != 1 or b.term:
+        if len(nxt) != 1:
+            return None
+        # an unconditional jump (break / goto) or a branch whose other edge the front end pruned as constant (`while (false)`) is
+        # still a straight line
+        if b.term and not (b.term.get("kind") in ("BreakStmt", "GotoStmt") or len(b.succs) > len(nxt)):
             return None
         cur = nxt[0]
     return None
